@@ -54,77 +54,7 @@ FILES = [
 ALL = [c for c in os.environ.get("TWIN_CHECKS", "").split(",") if c] or [f"C{i:02d}" for i in range(1, 21)]
 
 
-def locals_of(fn):
-    params = {a.arg for a in fn.args.posonlyargs + fn.args.args + fn.args.kwonlyargs}
-    if fn.args.vararg:
-        params.add(fn.args.vararg.arg)
-    if fn.args.kwarg:
-        params.add(fn.args.kwarg.arg)
-    names = set()
-    banned = set()
-
-    def walk(n, top=True):
-        for c in ast.iter_child_nodes(n):
-            if isinstance(c, (ast.FunctionDef, ast.AsyncFunctionDef, ast.ClassDef, ast.Lambda)):
-                if isinstance(c, (ast.FunctionDef, ast.AsyncFunctionDef)):
-                    banned.add(c.name)
-                continue
-            if isinstance(c, (ast.Global, ast.Nonlocal)):
-                banned.update(c.names)
-            if isinstance(c, ast.Name) and isinstance(c.ctx, ast.Store):
-                names.add(c.id)
-            if isinstance(c, ast.ExceptHandler) and c.name:
-                names.add(c.name)
-            if isinstance(c, (ast.Import, ast.ImportFrom)):
-                for a in c.names:
-                    banned.add((a.asname or a.name).split(".")[0])
-            walk(c, False)
-
-    walk(fn)
-    return sorted(n for n in names - params - banned if not n.startswith("__"))
-
-
-def rename(src_lines, fn, old, new):
-    """Rename Name nodes ``old`` inside ``fn`` (including nested scopes that do not rebind it as a parameter)."""
-    edits = []
-
-    def visit(n, shadow):
-        for c in ast.iter_child_nodes(n):
-            if isinstance(c, (ast.FunctionDef, ast.AsyncFunctionDef, ast.Lambda)):
-                ps = {a.arg for a in c.args.posonlyargs + c.args.args + c.args.kwonlyargs}
-                if c.args.vararg:
-                    ps.add(c.args.vararg.arg)
-                if c.args.kwarg:
-                    ps.add(c.args.kwarg.arg)
-                # nested function assigning the same name has its own local: skip entirely
-                own = any(isinstance(x, ast.Name) and x.id == old and isinstance(x.ctx, ast.Store) for x in ast.walk(c)) and not any(isinstance(x, ast.Nonlocal) and old in x.names for x in ast.walk(c))
-                if old in ps or own:
-                    # still visit decorators / defaults
-                    continue
-                visit(c, shadow)
-                continue
-            if isinstance(c, ast.Name) and c.id == old:
-                edits.append((c.lineno, c.col_offset, c.end_col_offset))
-            if isinstance(c, ast.ExceptHandler) and c.name == old:
-                # "except X as old:" — locate the name textually on the header line
-                line = src_lines[c.lineno - 1]
-                idx = line.rfind(" as " + old)
-                if idx >= 0:
-                    edits.append((c.lineno, idx + 4, idx + 4 + len(old)))
-            if isinstance(c, ast.keyword) and False:
-                pass
-            visit(c, shadow)
-
-    visit(fn, set())
-    lines = list(src_lines)
-    for ln, a, b in sorted(set(edits), reverse=True):
-        s = lines[ln - 1]
-        # col offsets are in utf-8 bytes
-        bs = s.encode("utf-8")
-        if bs[a:b].decode("utf-8") != old:
-            return None
-        lines[ln - 1] = (bs[:a] + new.encode() + bs[b:]).decode("utf-8")
-    return lines
+from sa.variants import locals_of, rename  # noqa: E402
 
 
 def main():
